@@ -70,7 +70,7 @@ func VerifC04_AuthenticReply() {
 	sid, seq := vU32(), vU32()
 	encrypted := vBool()
 	authenticated := vBool()           // the authenticated flag of the datagram (the trailer is present either way)
-	cut := []int{0, 1, 16}[vChoice(3)] // bytes missing from the end of the AuthCode (16: all of it)
+	cut := []int{0, 1, 16, -1}[vChoice(4)] // bytes missing from the end of the AuthCode (16: all of it; -1: the whole session trailer, the datagram ends with its payload)
 	blocks := 1 + vChoice(vParam("maxblocks", 2))
 	var iv, pt, body []byte
 	vs.ft.reply = func(attempt int, req []byte) ([]byte, error) {
@@ -97,6 +97,9 @@ func VerifC04_AuthenticReply() {
 		d = append(d, refPutLE32(seq)...)
 		d = append(d, byte(len(payload)), 0)
 		d = append(d, payload...)
+		if cut < 0 {
+			return d[:len(d):len(d)], nil
+		}
 		q := (4 - (12+len(payload)+2)%4) % 4
 		for i := 0; i < q; i++ {
 			d = append(d, 0xff)
